@@ -5,7 +5,8 @@ from __future__ import annotations
 import ast
 from typing import Dict, Iterator, List, Optional, Set, Tuple
 
-from .progdb import walk_no_nested, call_name, kwarg, lit, Module, AnalysisError
+from .progdb import walk_no_nested, call_name, kwarg, lit, Module, AnalysisError, bound_args
+from . import progdb as _progdb
 
 
 def assignments(func: ast.AST, nested: bool = True) -> Iterator[Tuple[ast.expr, ast.expr, ast.stmt]]:
@@ -195,12 +196,29 @@ class _Canon(ast.NodeTransformer):
 
 
 def canon(node: ast.AST) -> ast.AST:
-    return node     # orientation of comparisons is handled inside the matcher (both orientations are tried)
+    # orientation of comparisons is handled inside the matcher (both orientations are tried);
+    # `x op= e` is matched in its expanded form `x = x op e`
+    if isinstance(node, ast.AugAssign) and isinstance(node.target, ast.Name):
+        return ast.Assign(targets=[ast.Name(id=node.target.id, ctx=ast.Store())], value=ast.BinOp(left=ast.Name(id=node.target.id, ctx=ast.Load()), op=node.op, right=node.value))
+    return node
+
+
+def self_updates(root: ast.AST, name: Optional[str] = None) -> List[ast.stmt]:
+    """statements `x op= e` / `x = x op e` under root (for the given name, or any)"""
+    out = []
+    for n in ast.walk(root):
+        if isinstance(n, ast.AugAssign) and isinstance(n.target, ast.Name) and (name is None or n.target.id == name):
+            out.append(n)
+        elif isinstance(n, ast.Assign) and len(n.targets) == 1 and isinstance(n.targets[0], ast.Name) and isinstance(n.value, ast.BinOp) and \
+                isinstance(n.value.left, ast.Name) and n.value.left.id == n.targets[0].id and (name is None or n.targets[0].id == name):
+            out.append(n)
+    return out
 
 
 def _pat(src: str) -> ast.AST:
     s = src.replace("$$", "__mvx_").replace("$", "__mv_")
     tree = ast.parse(s.strip())
+    _progdb._canonicalise_calls(tree, _progdb.SIGS)        # patterns may be written in either argument style
     node = tree.body[0]
     if isinstance(node, ast.Expr):
         node = node.value
